@@ -1,5 +1,7 @@
 import Uniseg.Proofs.ChainStep
 import Uniseg.Proofs.ChainG
+import Uniseg.Proofs.StepWidth
+import Uniseg.Properties.C06
 /-! # C08 — Step reports exactly what the four specialised functions report
 
 Quantifiers: every byte string, every cluster position in the chain of `Step`/`StepString` calls
@@ -100,6 +102,32 @@ theorem step_clusters_eq_fg (isString : Bool) (amb : Nat) (rs : List Rune) :
     have h3 : (List.map (isBStep ∘ fun x => x.2) (runV trStep none (runeVals (r :: rest)))) =
         List.map ((fun x => x.2) ∘ fun t => (t.1.g, t.2.1)) (runV trStep none (runeVals (r :: rest))) := rfl
     rw [h3, h2, List.map_tail]
+
+
+/-- **Same widths.** Call by call, the chain of `Step`/`StepString` calls from −1 reports the cluster
+length and — decoded from `boundaries` with `>> ShiftWidth` — the width that the chain of
+`FirstGraphemeCluster` calls reports (relational induction over the two chains; the carried states
+stay related by `StepWidth.RelSG`, which includes the coherence of the class field that makes
+`StepString`'s early return agree). -/
+theorem step_widths_eq_fg (isString : Bool) (amb : Nat) (rs : List Rune) :
+    (chain (stepR isString amb) rs none).map (fun x => (x.1, x.2.1 >>> ShiftWidth)) =
+      (chain (firstGraphemeClusterR amb) rs none).map (fun x => (x.1, x.2.1)) :=
+  StepWidth.chains_rel isString amb rs.length rs none none (Or.inr (Or.inl ⟨rfl, rfl⟩))
+
+/-- hence every cluster `Step` yields carries the documented width of its code points (C06's model) -/
+theorem step_widths_eq_model (isString : Bool) (amb : Nat) (rs : List Rune) :
+    (chain (stepR isString amb) rs none).map (fun x => x.2.1 >>> ShiftWidth) =
+      C06.groupWidths amb rs (chain (firstGraphemeClusterR amb) rs none) := by
+  have h := congrArg (List.map (·.2)) (step_widths_eq_fg isString amb rs)
+  simp only [List.map_map] at h
+  have h2 := C06.chain_widths_eq amb rs.length rs none (by intro s r rest hs; cases hs)
+  unfold chain at h ⊢
+  rw [← h2]
+  exact h
+
+/-- non-vacuity: a flag (two Regional Indicators, width 2) then "e" + U+0301 (width 1) -/
+example : (chain (stepR true 1) [(0x1F1E9, 4), (0x1F1EA, 4), (0x65, 1), (0x301, 2)] none).map
+    (fun x => (x.1, x.2.1 >>> ShiftWidth)) = [(2, 2), (2, 1)] := by decide +kernel
 
 /-- non-vacuity of the packing hypothesis: a concrete well-formed state -/
 example : WFS ⟨grExtendedPictographicZWJ, wbALetter ||| wbZWJBit, sbSB8aSp, lbNUCP ||| lbCPeaFWHBit⟩ ∧
